@@ -11,8 +11,11 @@ AbsCBM(js) == [n |-> [x \in DOMAIN js.n |-> [props |-> js.n[x].props, adms |-> T
 AbsADM(i, js) == [id |-> i, n |-> [x \in DOMAIN js.n |-> [props |-> js.n[x].props, deleg |-> Fn(js.n[x].deleg)]],
                   e |-> {ToSet(ed) : ed \in ToSet(js.e)}]
 AbsState(js) == [cbm |-> AbsCBM(js.cbm), adm |-> [i \in DOMAIN js.adm |-> AbsADM(i, js.adm[i])],
-                 snaps |-> [k \in DOMAIN js.snaps |-> AbsCBM(js.snaps[k])]]
-NormState(S) == [cbm |-> NormCBM(S.cbm), adm |-> S.adm, snaps |-> [k \in DOMAIN S.snaps |-> NormCBM(S.snaps[k])]]
+                 snaps |-> [k \in DOMAIN js.snaps |-> AbsCBM(js.snaps[k])], plug |-> js.plug]
+NormState(S) == [cbm |-> NormCBM(S.cbm), adm |-> S.adm, snaps |-> [k \in DOMAIN S.snaps |-> NormCBM(S.snaps[k])], plug |-> S.plug]
+ResOK(e, got) == CASE e.k = "none" -> TRUE
+                   [] e.k = "deleg" -> got.k = "deleg" /\ got.v = e.v
+                   [] e.k = "bqm" -> got.k = "bqm" /\ got.via = e.via /\ got.same
 
 Init == tid \in 1..Len(Traces) /\ l = 1 /\ cur = Init0 /\ bad = 0
 Next == /\ l <= Len(Traces[tid].steps)
@@ -30,6 +33,8 @@ Next == /\ l <= Len(Traces[tid].steps)
                        ELSE IF NormState(got).snaps # NormState(exp.st).snaps THEN "snapshots"
                        ELSE IF \E x \in DOMAIN line.state.cbm.n : ~line.state.cbm.n[x].adms_distinct THEN "provenance lists a model twice"
                        ELSE IF ~ProvenanceExact(got) THEN "provenance not exact"
+                       ELSE IF got.plug # exp.st.plug THEN "plug-in registry"
+                       ELSE IF ~ResOK(exp.res, line.res) THEN (IF exp.res.k = "deleg" THEN "delegations attributed to a contributing model" ELSE "result")
                        ELSE ""
            IN  /\ IF v # "" THEN PrintT(ToJson([verdict |-> "REJECT", tid |-> Traces[tid].tid, line |-> l, clause |-> v])) ELSE TRUE
                /\ cur' = IF v = "" THEN exp.st ELSE got
